@@ -20,15 +20,17 @@ for s,conf,res in rows:
     if demo and os.path.exists(src+'/'+demo): shutil.copy(src+'/'+demo,d+'/'+demo)
     viol=re.findall(r'VIOLATION property=(\S+) replay=\S*/([^/\s]+)\.json',res)
     pid=s.split('_')[0]
+    ran=re.findall(r'check=(C\d+)',res) or [pid]
+    claimed='not claimed' not in res
     out={"property":meta.get('property',pid),"summary":meta.get('summary'),"breaks":meta.get('breaks'),"needs":meta.get('needs'),
          "demonstration":{"file":demo,"package_dir":meta.get('demo_pkg_dir'),"cmd":meta.get('demo_cmd')},
          "what_i_ran":["/verif/seedconfirm.sh (scratch git worktree of /repo at %s: demo passes without the patch, fails with it, the pinned suite passes with it)"%head,
-                       "/verif/seedrun.sh <seed> %s quick (git -C /repo apply, ./check %s quick, git -C /repo checkout -- .)"%(pid,pid)],
-         "confirmed_on_repo_commit":head,"confirm_result":conf.split(' ',2)[-1] if conf else conf,
+                       "/verif/seedrun.sh <seed> %s quick (git -C /repo apply, ./check %s quick, git -C /repo checkout -- .)"%(' / '.join(ran),' / '.join(ran)) if claimed else "no check: the property is not claimed (not applicable)"],
+         "confirmed_on_repo_commit":"between 1dcb5bb and %s (the commits in between touch only the keytab count field and contract files)"%head,"confirm_result":conf.split(' ',2)[-1] if conf else conf,
          "rebased":os.path.exists(src+'/patch_original.diff'),
          "check_result":{"exit":1 if viol else 0,"violations":[v[1] for v in viol][:6]},
-         "detected":bool(viol)}
+         "detected":bool(viol) if claimed else None}
     json.dump(out,open(d+'/meta.json','w'),indent=1)
-    summary.append((s,'detected' if viol else 'MISSED',', '.join(v[1][:60] for v in viol[:2])))
+    summary.append((s,('detected by '+'/'.join(sorted(set(v[0] for v in viol)))) if viol else ('MISSED' if claimed else 'property not claimed'),', '.join(v[1][:60] for v in viol[:2])))
 json.dump([{"seed":a,"result":b,"by":c} for a,b,c in summary],open('/verif/seeded/SUMMARY.json','w'),indent=1)
 for r in summary: print('%-7s %-9s %s'%r)
